@@ -49,6 +49,8 @@ class Ctx:
         print("[%s %6.1fs]" % (self.prop, time.time() - self.t0), *a, flush=True)
 
     def cleanup(self):
+        if os.environ.get("VERIF_KEEP"):
+            return
         shutil.rmtree(self.work, ignore_errors=True)
         try:
             os.rmdir(os.path.join(self.root, ".work"))
@@ -418,7 +420,8 @@ def parse_emission(out):
             kind, payload = txt.split(" ", 1)
             obj = json.loads(payload)
             if kind == "STATE":
-                states.append(obj["hist"])
+                if obj["hist"] not in states:      # several workers may report the same state
+                    states.append(obj["hist"])
             else:
                 events.append(obj)
     return states, events
@@ -538,7 +541,7 @@ def stage_aux(ctx, st):
             known_lines.setdefault(k["what"], []).append(ln)
     traces = [[ln] for ln in rest] + [[lns[0]] for lns in known_lines.values()]
     ctx.extra["known_finding_instances"] = {w[:60]: len(lns) for w, lns in known_lines.items()}
-    found = validate_traces(ctx, "TraceAux", ["InvAux"], traces, st["name"], chunk=st.get("chunk", 400), par=12,
+    found = validate_traces(ctx, "TraceAux", st.get("invariants", ["InvAux"]), traces, st["name"], chunk=st.get("chunk", 400), par=12,
                             heap=st.get("heap", "6g"))
     ctx.stage_log.append({"stage": st["name"], "aux": st["aux"], "lines": len(all_lines), "rejections": len(found)})
     for info in found:
